@@ -61,6 +61,8 @@ func (c Card) String() string {
 const (
 	Timestamp = ".google.protobuf.Timestamp"
 	Duration  = ".google.protobuf.Duration"
+	Value     = ".google.protobuf.Value"
+	Struct    = ".google.protobuf.Struct"
 )
 
 // Query is the sebuf.http.query annotation.
